@@ -20,7 +20,7 @@ pub enum Policy {
 }
 
 /// A runnable (not merely spuriously-wakeable) thread is never passed over more often than this.
-pub const FAIR_BOUND: u32 = 96;
+pub const FAIR_BOUND: u32 = 32;
 
 #[derive(Default, Debug)]
 pub struct SchedRecord {
